@@ -319,7 +319,7 @@ func (p *printer) cmd(c *Cmd) {
 		}
 		b.WriteString("{/" + kw + "}")
 	case "let":
-		b.WriteString(tag("let $"+c.Var+": "+PrintExpr(c.Expr)+" /"))
+		b.WriteString(tag("let $" + c.Var + ": " + PrintExpr(c.Expr) + " /"))
 	case "letc":
 		b.WriteString("{let $" + c.Var + "}")
 		p.cmds(c.Body)
